@@ -1,0 +1,37 @@
+//go:build verif
+
+package pool
+
+// Verification hooks (build tag "verif"). A harness may install functions that
+// take over buffer allocation/release (ownership tracking, poisoning) and
+// goroutine spawning. Nil hooks fall through to the normal implementation.
+
+var (
+	// VerifGo, if set, runs fn and returns true, or returns false to fall through.
+	VerifGo func(fn func()) bool
+	// VerifGetBuf, if set, returns a non-nil buffer of the given size, or nil to fall through.
+	VerifGetBuf func(size int) Buffer
+	// VerifReleaseBuf, if set, returns true if it took the buffer, or false to fall through.
+	VerifReleaseBuf func(b Buffer) bool
+)
+
+func verifGo(fn func()) bool {
+	if h := VerifGo; h != nil {
+		return h(fn)
+	}
+	return false
+}
+
+func verifGetBuf(size int) Buffer {
+	if h := VerifGetBuf; h != nil {
+		return h(size)
+	}
+	return nil
+}
+
+func verifReleaseBuf(b Buffer) bool {
+	if h := VerifReleaseBuf; h != nil {
+		return h(b)
+	}
+	return false
+}
